@@ -141,6 +141,8 @@ class World:
                 v = (interp or Interp(None, self)).eval(c.attrs[name], _ClassBodyEnv(self, interp, c, env))
                 if interp is not None:
                     interp.modstate[key] = v
+                    if isinstance(v, (dict, list)):
+                        interp.global_ids[id(v)] = '%s::%s.%s' % (c.module.relpath, c.name, name)
                 return v
         return NotImplementedVal
 
@@ -162,6 +164,8 @@ class World:
             env = Env({}, None, None, mod, set())
             v = interp.eval(mod.assigns[name], env)
             interp.modstate[key] = v
+            if isinstance(v, (dict, list)):
+                interp.global_ids[id(v)] = '%s::%s' % key
             return v
         if name in mod.imports:
             return self.resolve_import(interp, mod, mod.imports[name])
@@ -428,7 +432,7 @@ class World:
         return NotImplementedVal
 
     def note_mutation(self, interp, container):
-        pass
+        interp.note_global_write(container)
 
     def hash_key(self, interp, obj):
         h = self.hash_keys.get(obj.cls.name)
